@@ -464,3 +464,22 @@ func registerBufr(e *Engine) {
 		return TupleV{E: []Value{Sc{want}, IfaceV{}}}
 	})
 }
+
+// sync/atomic.Value: a cell holding an interface value (the zero Value holds nil).
+func registerAtomicValue(e *Engine) {
+	reg := func(name string, f IntrinsicFn) { e.intr[name] = f }
+	key := func(v Value) string { return "atomicval:" + lockKey(v.(PtrV)) }
+	reg("(*sync/atomic.Value).Load", func(in *Interp, _ *frame, _ *ssa.Function, args []Value, pos tokenPos) Value {
+		if v, ok := in.ghost[key(args[0])]; ok {
+			return v
+		}
+		return IfaceV{}
+	})
+	reg("(*sync/atomic.Value).Store", func(in *Interp, _ *frame, _ *ssa.Function, args []Value, pos tokenPos) Value {
+		if iv, ok := args[1].(IfaceV); ok && iv.T == nil {
+			in.goPanicf(pos, "atomicstore", "sync/atomic: store of nil value into Value")
+		}
+		in.ghost[key(args[0])] = args[1]
+		return nil
+	})
+}
